@@ -171,8 +171,39 @@ Definition c11_lineage_spec (a : list Z) : list Z :=
   | _ => [0]
   end.
 
+(* does the program follow the exploration discipline?  [1; n; running path of every solver
+   object...] or [0] *)
+Definition c11_sched (a : list Z) : list Z :=
+  match a with
+  | _ :: nt :: r =>
+      let (_, r') := read_table (Z.to_nat nt) r in
+      match sched_run Z sched_init (read_hops (List.length r') r') with
+      | Some sc => ([1; lenZ (sc_current sc)] ++ map natZ (sc_current sc))%list
+      | None => [0]
+      end
+  | _ => [0]
+  end.
+
+(* the pure model run along the lineage of every object (the right-hand side of
+   C11_solver_mirrors_running_path): per object [status; n; solver view...] *)
+Definition c11_lineage_solver (a : list Z) : list Z :=
+  match a with
+  | _ :: nt :: r =>
+      let (table, r') := read_table (Z.to_nat nt) r in
+      let vars := fun c : Z => nth (Z.to_nat c) table [] in
+      let ls := lineages Z (read_hops (List.length r') r') in
+      lenZ ls ::
+      flat_map (fun l => match run Z Z.eqb (fun c => c) (fun c => c =? 0) vars (empty_path Z []) l with
+                         | Some p => ([1; lenZ (solver p)] ++ solver p)%list
+                         | None => [0; 0]
+                         end) ls
+  | _ => [0]
+  end.
+
 Definition table : list (string * (list Z -> list Z)) :=
-  [ ("c11_heap"%string, c11_heap);
+  [ ("c11_sched"%string, c11_sched);
+    ("c11_lineage_solver"%string, c11_lineage_solver);
+    ("c11_heap"%string, c11_heap);
     ("c11_lineage_spec"%string, c11_lineage_spec);
     ("c11_refine_line"%string, c11_refine_line);
     ("c11_eval"%string, c11_eval);
